@@ -3,10 +3,12 @@
    its Init uses) as one JSON record per line; the harness replays each into the real _find_best_basis and
    TraceBestBasis.tla judges the answers.  TLC evaluates the ASSUME once; the state machine is a dummy. *)
 EXTENDS Integers, Sequences, FiniteSets, TLC, Json, IOUtils, SequencesExt
-CONSTANTS NMax, Met, EqualMetrics
+CONSTANTS NMax, Met, EqualMetrics, G
 VARIABLES sp, me, done
 B == INSTANCE BestBasis
-Cases == UNION {{[spans |-> s, metrics |-> m] : m \in B!Metrics(s)} : s \in B!SpanLists}
+GCubic == B!GCubic
+GHex == B!GHex
+Cases == UNION {{[spans |-> s, metrics |-> m, gram |-> G] : m \in B!Metrics(s)} : s \in B!SpanLists}
 ASSUME ndJsonSerialize(IOEnv.OUT_FILE, SetToSeq(Cases))
 ASSUME PrintT(<<"EMITTED", Cardinality(Cases)>>)
 Init == sp = <<>> /\ me = <<>> /\ done = TRUE
